@@ -34,6 +34,9 @@ func checkC06(c *an.Ctx) {
 	taskPolicyUntouched(c, "C06.5")
 	// … nor an element of its command lists: a filter or a rendering "in place" on t.Commands rewrites the task's definition
 	taskStorageWrites(c, "C06.5")
+	// … starting with what the loader builds: the command lists and the variations are the definition's, entry for entry
+	declaredList(c, "C06.5", "Task.Variations", "taskDefinition.Variations", "the task's variations", "the definition's variations", "a variation dropped on the way (an empty one still means one pass over the commands) is a pass that never runs")
+	declaredList(c, "C06.5", "Task.Commands", "taskDefinition.Command", "the task's commands", "the definition's command", "a command dropped or rewritten on the way is one the task never runs")
 }
 
 // taskPolicyUntouched checks C06.5: outside the packages that define and build tasks (pkg/task,
